@@ -2,20 +2,10 @@
 (* C10 / C11 / C12 / C15 over HISTORIES: every sequence (to a bounded       *)
 (* length) of role-lifecycle and pause transactions, including the same     *)
 (* transactions merely simulated or placed in a multi-message transaction   *)
-(* whose last message fails (a branch that is discarded), followed by       *)
-(* probes.  TLC enumerates the paths (the path is part of the state); each  *)
-(* maximal path is printed once and replayed from genesis on the real code, *)
-(* so that what a transaction left behind -- in the store or anywhere else  *)
-(* -- meets the transactions that follow it.                                *)
-EXTENDS MCBase
-
-VARIABLE trace
-lvars == <<st, tx, hist, last, trace>>
+(* whose last message fails, followed by probes.                            *)
+EXTENDS MCPaths
 
 Start == [BaseState EXCEPT !.pauser = "a2", !.bal = [@ EXCEPT !["a1"] = 6], !.supply = 10]
-Failing == [type |-> "AcceptOwner", from |-> "x1"]
-Sim(m)   == [type |-> "Simulate", tx |-> m]
-Bat(m)   == [type |-> "Batch", msgs |-> <<m, Failing>>]
 
 Core(s) ==
   { [type |-> "UpdateOwner", from |-> s.owner, new |-> s.owner], [type |-> "UpdateOwner", from |-> s.owner, new |-> "a2"],
@@ -32,23 +22,13 @@ Probes(s) ==
     [type |-> "PauseBurningAndMinting", from |-> "a3"],
     [type |-> "DepositForBurn", from |-> "a1", amt |-> 1, dst |-> "d1", mrcpt |-> B("j", "x1"), tok |-> MINT] }
 Msgs(s) == Core(s) \cup Wrapped(s) \cup Probes(s)
-
 Depth == IF Thorough THEN 4 ELSE 3
 
-Step(m) ==
-  /\ tx.pc = "idle" /\ Len(trace) < Depth
-  /\ LET r == Run(st, m, <<>>) IN
-     /\ st' = r.post /\ last' = r.out /\ hist' = [hist EXCEPT !.steps = @ + 1] /\ tx' = Idle
-     /\ trace' = Append(trace, [msg |-> m, faults |-> <<>>])
-Done == /\ Len(trace) = Depth
-        /\ PrintT(ToJson([init |-> Start, events |-> trace]))
-        /\ trace' = <<"done">> \o trace /\ UNCHANGED vars
+Init == PInit(Start)
+Next == (\E m \in Msgs(st) : PStep(m, Depth)) \/ PDone(Start, Depth)
+Spec == Init /\ [][Next]_pvars
 
-Init == InitOver({Start}) /\ trace = <<>>
-Next == (\E m \in Msgs(st) : Step(m)) \/ Done
-Spec == Init /\ [][Next]_lvars
-
-\* C11 / C10 on the paths: a simulated or failed-batch transaction changes nothing
+\* a simulated transaction changes nothing
 DiscardedChangesNothing ==
-  [][(Len(trace') = Len(trace) + 1 /\ trace'[Len(trace')].msg.type = "Simulate") => st' = st]_lvars
+  [][(Len(trace') = Len(trace) + 1 /\ trace'[Len(trace')].msg.type = "Simulate") => st' = st]_pvars
 =============================================================================
